@@ -111,10 +111,17 @@ def impl_encodings(exe, cfg, seed, per_type, size, need_de=False, extra=None):
     for cid, tid, t, v in cases:
         r = res.get(cid)
         if r is None or '\t' not in r:
+            if r is None or not r.startswith('skip from_val'):
+                # a panic, a dead child, an unreadable answer: the caller builds its cases from this list, so a value that
+                # kills `to_vec` must not just disappear from it
+                LOST_ENCODINGS.append('%s %s -> %s' % (rust(t), str(v)[:80], str(r)[:120]))
             continue
         repr_, rr = r.split('\t', 1)
         out.append((tid, t, v, repr_, rr))
     return out
+
+
+LOST_ENCODINGS = []      # filled by impl_encodings; callers report it as disagreements
 
 
 def ok_hex(r):
